@@ -93,8 +93,11 @@ class TlsAlertDescription(enum.IntEnum):
     CLOSE_NOTIFY = 0x00
     UNEXPECTED_MESSAGE = 0x0a
     BAD_RECORD_MAC = 0x14
+    DECRYPTION_FAILED = 0x15
     RECORD_OVERFLOW = 0x16
+    DECOMPRESSION_FAILURE = 0x1e
     HANDSHAKE_FAILURE = 0x28
+    NO_CERTIFICATE = 0x29
     BAD_CERTIFICATE = 0x2a
     UNSUPPORTED_CERTIFICATE = 0x2b
     CERTIFICATE_REVOKED = 0x2c
@@ -105,11 +108,13 @@ class TlsAlertDescription(enum.IntEnum):
     ACCESS_DENIED = 0x31
     DECODE_ERROR = 0x32
     DECRYPT_ERROR = 0x33
+    EXPORT_RESTRICTION = 0x3c
     PROTOCOL_VERSION = 0x46
     INSUFFICIENT_SECURITY = 0x47
     INTERNAL_ERROR = 0x50
     INAPPROPRIATE_FALLBACK = 0x56
     USER_CANCELED = 0x5a
+    NO_RENEGOTIATION = 0x64
     MISSING_EXTENSION = 0x6d
     UNSUPPORTED_EXTENSION = 0x6e
     CERTIFICATE_UNOBTAINABLE = 0x6f
